@@ -48,13 +48,8 @@ fn default_custom_value() -> serde_json::Value {
 
 impl ZervVars {
     fn derive_short_hash(hash: Option<&String>) -> Option<String> {
-        hash.map(|h| {
-            if h.len() >= 8 {
-                h[..8].to_string()
-            } else {
-                h.clone()
-            }
-        })
+        // The first 8 characters (a byte index could fall inside a multi-byte character)
+        hash.map(|h| h.chars().take(8).collect())
     }
 
     pub fn get_bumped_commit_hash_short(&self) -> Option<String> {
